@@ -708,7 +708,7 @@ def run_group(ctx, g, obj):
                                                    {kk.replace('h_' + c, 'r_' + c): vv for kk, vv in uw.items()}.items())])
             rr = None
             for rs in dict.fromkeys([win, 'cadical', 'z3']):
-                rc, out, dt = run(rbase + SOLVER_ARGS[rs], timeout=min(g['timeout'], 200), cwd=ctx.work, mem_kb=MEM_KB)
+                rc, out, dt = run(rbase + SOLVER_ARGS[rs], timeout=min(g['timeout'], 600), cwd=ctx.work, mem_kb=MEM_KB)
                 rr, _, st = parse_cbmc_json(out) if rc in (0, 10) else (None, None, None)
                 if rr and [r for r in rr if 'VERIF_REACH' in (r['description'] or '')]:
                     break
